@@ -262,8 +262,10 @@ fn sql_case(i: u64, p: &Params, rep: &mut Report) {
         3 => (format!("{} JOIN {} USING (id)", alias("t1", a1), alias("t2", a2)), col == "id"),
         _ => (format!("{} NATURAL JOIN {}", alias("t1", a1), alias("t2", a2)), in1 && in2),
     };
-    let place = r.below(7);
+    let place = r.below(8);
     let query = match place {
+        // unqualified name in the ON clause of the join itself
+        7 => format!("SELECT {}.id FROM {} JOIN {} ON {} > 3", a1, alias("t1", a1), alias("t2", a2), col),
         // the shared name used outside a derived table / CTE that selects * from the join
         5 => format!("SELECT {} FROM (SELECT * FROM {}) AS s", col, from),
         6 => format!("WITH s AS (SELECT * FROM {}) SELECT {} FROM s", from, col),
@@ -290,6 +292,7 @@ fn sql_case(i: u64, p: &Params, rep: &mut Report) {
         Relation::try_from(q.with(&relations)).map_err(|e| e.to_string())
     });
     rep.eval();
+    let (kind, merged) = if place == 7 { (0, false) } else { (kind, merged) };
     // ORDER BY first resolves against the output names: `SELECT t1.id ... ORDER BY id` is the output column
     let output_name = place == 3 && col == "id";
     let expectation = if output_name {
@@ -308,7 +311,7 @@ fn sql_case(i: u64, p: &Params, rep: &mut Report) {
     match (expectation, &res) {
         ("ambiguous", Ok(Ok(rel))) => {
             rep.violation(
-                format!("C15|sql|ambiguous-column-accepted|{}|{}", kinds[kind as usize], ["select", "where", "group-by", "order-by", "aggregate", "star-in-derived-table", "star-in-cte"][place as usize]),
+                format!("C15|sql|ambiguous-column-accepted|{}|{}", kinds[kind as usize], ["select", "where", "group-by", "order-by", "aggregate", "star-in-derived-table", "star-in-cte", "join-on"][place as usize]),
                 format!("`{}` names a column present in both joined tables, yet the query is accepted: {}", col, rel.schema()),
                 case,
             );
@@ -316,7 +319,7 @@ fn sql_case(i: u64, p: &Params, rep: &mut Report) {
         ("unknown column", Ok(Ok(_))) => {
             rep.violation(
                 if place >= 3 {
-                    format!("C15|sql|unknown-column-accepted|{}|{}", kinds[kind as usize], ["select", "where", "group-by", "order-by", "aggregate", "star-in-derived-table", "star-in-cte"][place as usize])
+                    format!("C15|sql|unknown-column-accepted|{}|{}", kinds[kind as usize], ["select", "where", "group-by", "order-by", "aggregate", "star-in-derived-table", "star-in-cte", "join-on"][place as usize])
                 } else {
                     format!("C15|sql|unknown-column-accepted|{}", kinds[kind as usize])
                 },
@@ -356,10 +359,16 @@ fn cte_shadow_case(i: u64, p: &Params, rep: &mut Report) {
     } else {
         Hierarchy::from([(vec!["t1"], Arc::new(t1)), (vec!["t2"], Arc::new(t2))])
     };
-    let query = match r.below(3) {
-        0 => "WITH t1 AS (SELECT c AS a FROM t2) SELECT a FROM t1".to_string(),
-        1 => "WITH t1 AS (SELECT c AS a, id FROM t2 WHERE c > 21) SELECT a, id FROM t1 WHERE a > 22".to_string(),
-        _ => "WITH t2 AS (SELECT a AS c FROM t1) SELECT x.c FROM t2 AS x".to_string(),
+    let float_expected = DataType::float_interval(20.0, 30.0);
+    let int_expected = DataType::integer_interval(0, 10);
+    let (query, expected, kind) = match r.below(6) {
+        0 => ("WITH t1 AS (SELECT c AS a FROM t2) SELECT a FROM t1".to_string(), float_expected, "the base table is read instead of the CTE of the same name"),
+        1 => ("WITH t1 AS (SELECT c AS a, id FROM t2 WHERE c > 21) SELECT a, id FROM t1 WHERE a > 22".to_string(), float_expected, "the base table is read instead of the CTE of the same name"),
+        2 => ("WITH t2 AS (SELECT a AS c FROM t1) SELECT x.c FROM t2 AS x".to_string(), int_expected, "the base table is read instead of the CTE of the same name"),
+        // the same CTE name at two nesting levels: the innermost definition is the one in scope
+        3 => ("WITH v AS (SELECT a FROM t1) SELECT * FROM (WITH v AS (SELECT c AS a FROM t2) SELECT a FROM v) AS s".to_string(), float_expected, "an outer CTE is read instead of the inner CTE of the same name"),
+        4 => ("WITH w AS (WITH v AS (SELECT c AS a FROM t2) SELECT a FROM v), v AS (SELECT a FROM t1) SELECT a FROM w".to_string(), float_expected, "an outer CTE is read instead of the inner CTE of the same name"),
+        _ => ("WITH v AS (SELECT c AS a FROM t2) SELECT s.a FROM (WITH v AS (SELECT a FROM t1) SELECT a FROM v) AS s".to_string(), int_expected, "an outer CTE is read instead of the inner CTE of the same name"),
     };
     let res = guarded(|| {
         let q = qrlew::sql::parse(&query).map_err(|e| e.to_string())?;
@@ -370,17 +379,41 @@ fn cte_shadow_case(i: u64, p: &Params, rep: &mut Report) {
     rep.nontrivial(hash64(&(query.clone(), qualified)));
     if let Ok(Ok(rel)) = &res {
         let f = &rel.schema()[0];
-        // the CTE's column: float[20 30] in the first two queries, int[0 10] in the third
-        let expected = if query.starts_with("WITH t1") { DataType::float_interval(20.0, 30.0) } else { DataType::integer_interval(0, 10) };
         if !f.data_type().is_subset_of(&expected) {
             rep.violation(
-                format!("C15|sql|cte-shadowing|the base table is read instead of the CTE of the same name|{}", if qualified { "qualified paths" } else { "one-component paths" }),
+                format!("C15|sql|cte-shadowing|{}|{}", kind, if qualified { "qualified paths" } else { "one-component paths" }),
                 format!("{}: column {} has type {} (the CTE's column has type {})", query, f.name(), f.data_type(), expected),
                 json!({"query": query, "tables": {"t1": ["id int[0 100]", "a int[0 10]"], "t2": ["id int[0 100]", "c float[20 30]"]}, "registered_under": if qualified { "sch.t1, sch.t2" } else { "t1, t2" }}),
             );
         }
     } else {
         rep.count("sql:cte-shadows-table:refused-or-panic");
+    }
+}
+
+/// The same table twice in a FROM clause without aliases: every reference to it is ambiguous
+fn self_join_case(i: u64, p: &Params, rep: &mut Report) {
+    let mut r = p.rng(i ^ 0x5E1F_0000_0000);
+    let t1 = table("t1", &["id", "a"]);
+    let relations: Hierarchy<Arc<Relation>> = Hierarchy::from([(vec!["t1"], Arc::new(t1))]);
+    let query = match r.below(3) {
+        0 => "SELECT t1.id FROM t1 JOIN t1 ON t1.id = t1.id",
+        1 => "SELECT t1.a FROM t1 CROSS JOIN t1",
+        _ => "SELECT id FROM t1 JOIN t1 ON t1.id = t1.a",
+    };
+    let res = guarded(|| {
+        let q = qrlew::sql::parse(query).map_err(|e| e.to_string())?;
+        Relation::try_from(q.with(&relations)).map_err(|e| e.to_string())
+    });
+    rep.eval();
+    rep.count("sql:self-join-without-alias");
+    rep.nontrivial(hash64(&query));
+    if let Ok(Ok(rel)) = &res {
+        rep.violation(
+            "C15|sql|self-join-without-alias-accepted".to_string(),
+            format!("{} is accepted although every `t1` names two relations: {}", query, rel.schema()),
+            json!({"query": query, "relation": rel.to_string()}),
+        );
     }
 }
 
@@ -407,7 +440,9 @@ pub fn run(p: &Params) -> Report {
         p.cases,
         &mut rep,
         &|i, rep| {
-            if i % 30 == 29 {
+            if i % 300 == 59 {
+                self_join_case(i, &pp, rep)
+            } else if i % 30 == 29 {
                 cte_shadow_case(i, &pp, rep)
             } else if i % 3 == 2 {
                 sql_case(i, &pp, rep)
